@@ -215,26 +215,31 @@ structure Out where
   res : Except Err (Option Rec) := .ok none
   feeds : List (Nat × List Rec × Bool) := []
 
-/-- `Controller.Put` after the shutdown / read-only checks. -/
+/-- What `storage.Put` stores and returns for `r`: the injected storage of the harness returns a normalised copy
+    (as `config`'s storage returns the exported option), the others the record itself. -/
+def Cfg.putForm (c : Cfg) (r : Rec) : Rec :=
+  match c.kind with
+  | .inj => { r with s := r.s ++ "~" }
+  | _ => r
+
+/-- The storage part of `Controller.Put`: immediate delete (`storage.Delete`) or put / shadow delete
+    (`storage.Put`). Returns the new storage content and the record that is handed to the subscribers. -/
+def storeWrite (cfg : Cfg) (store : Store) (r : Rec) : Except Err (Store × Rec) :=
+  if !cfg.shadow && r.md.deleted then
+    -- immediate delete; the registry's storage wrapper has no Delete
+    if cfg.kind == .reg then .error .notimpl else .ok (sErase store r.key, r)
+  else if cfg.kind == .reg && !managed r.key then .error .unmanaged
+  else .ok (sPut store (cfg.putForm r).key (cfg.putForm r), cfg.putForm r)
+
+/-- `Controller.Put` after the shutdown / read-only checks: pre-put hooks, storage, then `notifySubscribers` with
+    the record the storage returned. -/
 def ctrlPut (st : St) (r : Rec) : St × Out :=
   match runPrePut st.hooks r with
   | (cs, .error c) => (st, { calls := cs, res := .error (.veto c) })
   | (cs, .ok (r', _)) =>
-    if !st.cfg.shadow && r'.md.deleted then
-      -- immediate delete
-      match st.cfg.kind with
-      | .reg => (st, { calls := cs, res := .error .notimpl })
-      | _ => (notify { st with store := sErase st.store r'.key } r', { calls := cs })
-    else
-      -- put or shadow delete; subscribers get the record the storage returned
-      match st.cfg.kind with
-      | .reg =>
-        if managed r'.key then (notify { st with store := sPut st.store r'.key r' } r', { calls := cs })
-        else (st, { calls := cs, res := .error .unmanaged })
-      | .inj =>
-        let r'' := { r' with s := r'.s ++ "~" }
-        (notify { st with store := sPut st.store r''.key r'' } r'', { calls := cs })
-      | _ => (notify { st with store := sPut st.store r'.key r' } r', { calls := cs })
+    match storeWrite st.cfg st.store r' with
+    | .error e => (st, { calls := cs, res := .error e })
+    | .ok (store', w) => (notify { st with store := store' } w, { calls := cs })
 
 /-- `Controller.Get`: pre-get hooks by key, storage, post-get hooks by record, validity of the result. -/
 def ctrlGet (st : St) (key : String) : List Call × Except Err (Rec × Bool) :=
@@ -264,26 +269,31 @@ def putDenied (st : St) (o : Opts) (key : String) : Bool :=
     | some old => old.md.valid && !permitted o.loc o.int old.md
     | none => false
 
+/-- `PutNew` resets the metadata except the secret / crown-jewel flags (`Meta.Reset`). -/
+def newForm (r : Rec) (isNew : Bool) : Rec :=
+  if isNew then { r with md := { r.md with deleted := false, expires := 0 } } else r
+
+/-- The second half of `Interface.Put`/`PutNew`: `updateCache` (delayed writes), then `Controller.Put`. -/
+def putPrepared (st : St) (o : Opts) (r2 : Rec) : St × Out :=
+  if o.delayed then
+    if !r2.md.deleted then
+      -- delayed write: into the write cache, no controller involved
+      ({ st with wcache := sPut st.wcache r2.key r2 }, {})
+    else
+      -- a deleted record is removed from the read cache and written through; removing the cache entry
+      -- evicts a pending delayed write of the same key, which `cacheEvictHandler` puts first (its error is only logged)
+      match sGet st.wcache r2.key with
+      | some old =>
+        let (st1, o1) := ctrlPut { st with wcache := sErase st.wcache r2.key } old
+        let (st2, o2) := ctrlPut st1 r2
+        (st2, { o2 with calls := o1.calls ++ o2.calls })
+      | none => ctrlPut st r2
+  else ctrlPut st r2
+
 /-- `Interface.Put` (`isNew = false`) / `Interface.PutNew` (`isNew = true`). -/
 def ifacePut (st : St) (o : Opts) (r : Rec) (isNew : Bool) : St × Out :=
   if putDenied st o r.key then (st, { res := .error .denied })
-  else
-    let r1 := if isNew then { r with md := { r.md with deleted := false, expires := 0 } } else r
-    let r2 := applyOpts o r1
-    if o.delayed then
-      if !r2.md.deleted then
-        -- delayed write: into the write cache, no controller involved
-        ({ st with wcache := sPut st.wcache r2.key r2 }, {})
-      else
-        -- a deleted record is removed from the read cache and written through; removing the cache entry
-        -- evicts a pending delayed write of the same key, which `cacheEvictHandler` puts first (its error is only logged)
-        match sGet st.wcache r2.key with
-        | some old =>
-          let (st1, o1) := ctrlPut { st with wcache := sErase st.wcache r2.key } old
-          let (st2, o2) := ctrlPut st1 r2
-          (st2, { o2 with calls := o1.calls ++ o2.calls })
-        | none => ctrlPut st r2
-    else ctrlPut st r2
+  else putPrepared st o (applyOpts o (newForm r isNew))
 
 /-- The in-place modifications of `Interface.Delete/MakeSecret/MakeCrownJewel/SetAbsoluteExpiry/InsertValue`. -/
 inductive Mod where
